@@ -75,6 +75,15 @@ CHECKS.update({
             "Search over client states at close; two genuine defects on the bootstrap path are recorded as known findings and excluded by signature so the search continues past them.", CL_NOTE, "DESIGN.md 3/C20"),
 })
 
+CHECKS.update({
+    "C01": ("PROD", "stateful property-based testing of the real Producer + KafkaClient on a simulated stateful cluster; each send's outcome judged against the cluster's acknowledgement ledger; exactly-once firing observed by Deferred instrumentation; ddmin-shrunk JSON traces",
+            "Search over producer configurations, send/cancel/stop sequences, reply orders and fault sequences; a success must be backed by an error-free acknowledgement from the then-leader for a request containing exactly the send's messages, delivered in time; every Deferred must have fired exactly once after a final stop.", CL_NOTE, "DESIGN.md 3/C01"),
+    "C09": ("PROD", "stateful property-based testing; invariants over the whole produce-request history (sends, batches, rounds, attempts attributed by unique message tags, payload object identity and a wrapper on the public client call); virtual-time measurement of retry delays",
+            "Order within and across requests per partition, one batch at a time, only failed payloads retried and acknowledged senders told before the next round, geometric retry delays restarting per batch, attempt limit.", CL_NOTE, "DESIGN.md 3/C09"),
+    "C19": ("PROD", "model-based stateful property testing: a reference model of the documented batching behaviour (uncancelled queue totals, in-flight batch, tick instants) against the real Producer; cancels, ticks, held replies and stop drawn by Hypothesis",
+            "Never-early (a batch goes out only when a threshold over the uncancelled queue holds or the time limit ticked), never-late (warm, fault-free histories: thresholds met => dispatched; bounded wait with a time limit), cancel-before-dispatch never transmitted and uncounted, stop fails outstanding sends and transmits nothing, no timer left. Clause narrowing recorded in DESIGN.md: a send whose broker answer had already reached the client may be reported truthfully at stop.", CL_NOTE, "DESIGN.md 3/C19"),
+})
+
 NOT_YET = {
 }
 
@@ -117,6 +126,7 @@ def main():
         "engines": [
             {"name": "BC", "path": "vlib/engines/bc.py", "serves_properties": ["C06", "C10"], "kind_free_text": "real _KafkaBrokerClient / KafkaBootstrapProtocol on simulated time and transports (vlib/simnet.py) against a scripted peer, with a reference model of the request table; traces are JSON and replay without Hypothesis"},
             {"name": "CL", "path": "vlib/engines/cl.py", "serves_properties": ["C04", "C07", "C08", "C11", "C20"], "kind_free_text": "real KafkaClient on simulated time/transports against vlib/simkafka.py (stateful cluster model built on the independent protocol implementation); Hypothesis draws calls, scheduler choices and faults; traces replay without Hypothesis"},
+            {"name": "PROD", "path": "vlib/engines/prod.py", "serves_properties": ["C01", "C04", "C09", "C19"], "kind_free_text": "real Producer + KafkaClient on simulated time/transports against vlib/simkafka.py; acknowledgement ledger as ground truth; reference model of batching"},
             {"name": "structured", "path": "checks/", "serves_properties": ["C04", "C05", "C12", "C15", "C18"], "kind_free_text": "Hypothesis @given over composite strategies with an independent protocol implementation (vlib/refproto) or foreign implementation (JVM) as oracle"},
         ],
         "checks": checks,
